@@ -79,7 +79,7 @@ impl PropImpl for C13 {
         vec!["has:substvar", "has:empty-entry", "has:newline", "has:negated-architecture", "has:multi-term-profile-group", "has:epoch", "input-unsorted"]
     }
     fn budget(&self, tier: Tier) -> Budget {
-        Budget { cases_per_lane: if tier == Tier::Quick { 15000 } else { 60_000 }, tape_max: 500, cpu_s: 10 }
+        Budget { cases_per_lane: if tier == Tier::Quick { 45000 } else { 180000 }, tape_max: 500, cpu_s: 10 }
     }
     fn spaces(&self, _tier: Tier) -> Vec<Space> {
         vec![]
